@@ -15,7 +15,7 @@ CLAIMED = {
  "C06": ("ConnIdMapper::from_iter accepts exactly permutation pairs for all u16 vectors; matrix connector and whole-dictionary mapping keep cost(map r,map l)=cost(r,l) and map every entry consistently; malformed / wrong-length mappings give Err; tokenization before/after mapping agrees on a 2-character sentence; raw and dual connector mapping incl. ids sharing a matrix class",
          "dictionary-level instances use the matrix connector; two successive mappings compose (retained mapper); a user lexicon loaded from CSV after a mapping is covered under C08; write/read round trip with a mapper under C05"),
  "C07": ("XOR double-array lookup (retrieve_cost) against its definition for arbitrary arrays and every 31-bit key, 8-lane accumulation, RawConnector::cost and DualConnector::cost arithmetic on parts-built connectors with symbolic feature rows / class maps / matrix cells; raw and dual connectors built natively from one concrete bigram model checked against the defining sums for every id pair",
-         "construction from bigram.right/left/cost text (from_readers, template split, interning) is not executed symbolically (hashbrown maps and text parsing do not fold): it runs natively at check time on one concrete 10-template model with ragged rows and BOS/EOS entries and the solver checks cost() of the resulting raw and dual connectors for every id pair against the defining sums computed by an independent reference; ScorerBuilder::build on concrete key sets is attempted in the thorough tier (BTreeMap iteration does not fold: non-core); AVX2 path not modelled by Kani"),
+         "construction from bigram.right/left/cost text (from_readers, template split, interning) is not executed symbolically (hashbrown maps and text parsing do not fold): it runs natively at check time on one concrete 12-template model with ragged rows and BOS/EOS entries and the solver checks cost() of the resulting raw and dual connectors for every id pair against the defining sums computed by an independent reference; ScorerBuilder::build on concrete key sets is attempted in the thorough tier (BTreeMap iteration does not fold: non-core); AVX2 path not modelled by Kani"),
  "C08": ("system {a} + user {ab} vs system {a,ab} with shared symbolic parameters: same optimal cost, same candidate counts, the user word offered as a user-lexicon candidate with the same prefix minimum, system words still available; reset_user_lexicon_from_reader(None) removes every user candidate; on an id-mapped dictionary the real reset_user_lexicon_from_reader/parse_csv translate the first, the replacing and the reloaded-after-clear user lexicon with the retained mapping (concrete one-row CSVs, symbolic mapping)",
          "the double-array builder behind Lexicon::from_entries does not fold under CBMC: in the CSV instances it is stubbed by a trie the current code built natively for the same surface; CSV rows are concrete (parse_csv folds on concrete rows only); id verification is covered under C10 (c10_verify_ids)"),
  "C09": ("any 21-byte header different from the current magic followed by a valid body is rejected (all header bytes symbolic; also with only the 4 version bytes or only the terminator byte symbolic, which stay decidable when header handling grows); the complete image loads; hand-written decoders on symbolic bytes: U31 and U31x8 reject exactly the out-of-range lanes and every truncated input, the Scorer decoder rejects inconsistent array lengths; every cut point inside the header and inside the trie byte array of a whole image (symbolic cut point per 16-byte window); thorough tier: every strict prefix of a Scorer image with symbolic contents",
